@@ -40,7 +40,7 @@ pub fn spec() -> CheckSpec {
   CheckSpec {
     id: "C12",
     level: "exploration",
-    rule: "case = history of length 2-4 over a generated registry of 1-2 TypeScript packages (entrypoints, re-exported and private modules, cross-file and cross-package type references, annotated / trivially inferable / non-inferable exported declarations): Build (fresh graph, simulated loader, drawn schedule) -> FastCheck with a cache that persists over the history (with lost writes and evictions) -> Edit one source (body only, signature, add export, introduce or fix a non-inferable export, private module, dependency package) -> Build -> FastCheck ... After every fast check with the cache the same graph is fast-checked without a cache, and once more without a cache on another thread under a different hash seed. Oracles: the set of modules with emitted output, their text, recorded dependencies and source maps are identical with and without the cache; the two cache-less runs are identical in every fast-check slot; per analysed package either every entrypoint has emitted output and no module of it carries diagnostics, or no module of it has emitted output and every entrypoint carries diagnostics; the dependencies recorded for an emitted module are those the emitted text declares when re-analysed. distinct+non-trivial = distinct (world, history) pairs with at least one warm or stale cache lookup",
+    rule: "case = history of length 2-4 over a generated registry of 1-2 TypeScript packages, in one case of three with a workspace member (local files, every export a root) analysed with them, optionally a second version of the dependency package plus a helper package that privately pins the old one, JavaScript entrypoints (untyped or self-typed), a cross-package barrel (entrypoints, re-exported and private modules, cross-file and cross-package type references, annotated / trivially inferable / non-inferable exported declarations): Build (fresh graph, simulated loader, drawn schedule) -> FastCheck with a cache that persists over the history (with lost writes and evictions) -> Edit one source (body only, signature, add export, introduce or fix a non-inferable export, private module, dependency package, drop the dependency on the other package; root edits: direct import of the dependency, set of used exports, import of the pinning helper) -> Build -> FastCheck ... After every fast check with the cache the same graph is fast-checked without a cache, and once more without a cache on another thread under a different hash seed. Oracles: the set of modules with emitted output, their text, recorded dependencies and source maps are identical with and without the cache; the two cache-less runs are identical in every fast-check slot; per analysed package either every entrypoint has emitted output and no module of it carries diagnostics, or no module of it has emitted output and every entrypoint carries diagnostics; the dependencies recorded for an emitted module are those the emitted text declares when re-analysed. distinct+non-trivial = distinct (world, history) pairs with at least one warm or stale cache lookup",
     assumptions: vec![
       "the generated TypeScript is a small declaration language, enough for emit and diagnostic outcomes and public/private splits; the transform itself over arbitrary programs is outside this family",
       "with a cache, diagnostics are compared only as 'has diagnostics' (the cached path reports a placeholder diagnostic)",
